@@ -21,7 +21,7 @@ const verifBaseDoc = `{"openapi":"3.0.0","info":{"title":"t","version":"1","lice
 	`"callbacks":{"cb":{"$ref":"#/components/callbacks/C"},"cbi":{"{$request.body#/v}":{"post":{"parameters":[{"name":"t","in":"query","schema":{"type":"string"}}],"responses":{"200":{"description":"d","headers":{"X-C":{"schema":{"type":"integer"}}}}}}}}},"security":[{}]}}},` +
 	`"components":{"schemas":{"S":{"type":"object","required":["a"],"properties":{"a":{"type":"integer","format":"int32","minimum":0},"n":{"$ref":"#/components/schemas/S"},"l":{"type":"array","items":{"$ref":"#/components/schemas/T"}},"k":{"anyOf":[{"type":"string","maxLength":3},{"type":"integer"}]},"f":{"allOf":[{"type":"string"}],"not":{"type":"integer"}}},"additionalProperties":false,"discriminator":{"propertyName":"a"}},"T":{"oneOf":[{"type":"string","pattern":"^a"},{"type":"number","multipleOf":2}],"default":"a","nullable":true}},` +
 	`"parameters":{"Id":{"name":"id","in":"path","required":true,"schema":{"type":"string"}}},"headers":{"H":{"schema":{"type":"integer"}},"HC":{"content":{"application/json":{"schema":{"type":"integer"}}}}},"requestBodies":{"B":{"required":true,"content":{"application/json":{"schema":{"$ref":"#/components/schemas/S"},"examples":{"ex":{"value":{"a":1}}}},"multipart/form-data":{"schema":{"type":"object","properties":{"f":{"type":"string"}}},"encoding":{"f":{"contentType":"text/plain","style":"form","explode":true,"headers":{"X-E":{"schema":{"type":"string"}}}}}}}}},` +
-	`"responses":{"R":{"description":"d"}},"examples":{"E":{"value":[1]}},"links":{"L":{"operationId":"get","parameters":{"id":"$response.body#/a"}}},"callbacks":{"C":{"{$request.body#/u}":{"post":{"responses":{"200":{"description":"d"}}}}}},` +
+	`"responses":{"R":{"description":"d"}},"examples":{"E":{"value":[1]}},"links":{"L":{"operationId":"get","parameters":{"id":"$response.body#/a"},"server":{"url":"https://l.example/{lv}","variables":{"lv":{"default":"a"}}}}},"callbacks":{"C":{"{$request.body#/u}":{"post":{"responses":{"200":{"description":"d"}}}}}},` +
 	`"securitySchemes":{"sec":{"type":"oauth2","flows":{"implicit":{"authorizationUrl":"https://a","scopes":{}}}}}}}`
 
 // verifMutate replaces (or removes) the k-th node of the tree in document order.
